@@ -287,7 +287,10 @@ def apply_time_range_vevent(start, end, comp, tzify):
 
     duration = comp.get("DURATION")
     if duration:
-        return start < tzify(dtstart.dt) + duration.dt
+        if duration.dt > timedelta(0):
+            return start < tzify(dtstart.dt) + duration.dt
+        # zero duration: RFC 4791 section 9.9 uses (start <= DTSTART)
+        return start <= tzify(dtstart.dt)
     if getattr(dtstart.dt, "time", None) is not None:
         return start <= tzify(dtstart.dt)
     else:
